@@ -75,6 +75,14 @@ CLAIMS = {
   text="Bounded symbolic execution of ordered.Unmarshal / decodeInto / unmarshalScalar / Map.UnmarshalOrdered through reflect (modelled over the engine's typed heap from go/types of the current source) into a family of tagged struct types: plain, aliased, omitempty, `-`, untagged and unexported fields, slices, maps, nested and pointer-to-struct fields, inline map, ordered inline *MapSA and inline pointer-to-struct. Each named key is present / null / absent and free keys of 0-2 symbolic bytes are added; every key must land in exactly one destination, absent keys leave fields untouched, null zeroes them, leftovers keep document order.",
   note="Partial: the partition rule only. `Equals what yaml.Node.Decode produces` needs yaml.v3's reflective decoder and is not claimed. Bounds: 8 named keys x 3 states plus <= 1 (quick) / 2 (thorough) free keys.",
   ref="DESIGN.md §5 C16"),
+ "C02": dict(
+  text="Composition decided by bounded symbolic execution: SignSteps on a symbolic command step from an option lattice (command incl. multi-line, env nil/empty/populated, plugins nil/empty/short/canonical source with every scalar kind in configs, matrix nil/empty/simple/named with adjustments/only adjustments, pipeline env with a shadowed variable, all four key kinds) together with wait and group steps, then json.Marshal, re-parse both ways (CommandStep.UnmarshalJSON and the whole-pipeline path, JSON read as YAML), then Verify with the pipeline env plus an unrelated variable: the signature record is unchanged and verifies, also for the step inside the group.",
+  note="Partial: the JSON leg on the JSON data model under the ideal signature scheme. The YAML leg, real bytes (emitters/scanners of yaml.v3 and encoding/json) and real signatures are not claimed. Go map orders fixed in this harness (C14 varies them). Found defect 7 (setup: null) before its repair.",
+  ref="DESIGN.md §5 C02"),
+ "C09": dict(
+  text="Bounded symbolic execution of the JSON leg on the JSON data model: for a parsed command step with every optional part nil / empty / populated (key, label, command, env, signature, extras; plugins with every config shape; every Matrix and Cache marshal shape), json.Marshal (abstract, real MarshalJSON methods executed) -> CommandStep.UnmarshalJSON (yaml.Unmarshal modelled, then the real DecodeYAML and UnmarshalOrdered code) must succeed, give the same fields up to nil-vs-empty and canonical plugin sources, and marshal again to the same data; the same for a small pipeline through the whole-document path.",
+  note="Partial: the YAML leg, scalar re-typing by the YAML scanner, and byte-identical repeated marshalling are properties of yaml.v3 / encoding/json internals and are not claimed. One listed known finding (alias kept next to an empty primary key). Go map orders fixed (marshalled maps are compared as sets).",
+  ref="DESIGN.md §5 C09"),
 }
 
 NOT_APPLICABLE = {}
